@@ -42,6 +42,7 @@ func uuTyped(err error) bool {
 
 // c05Format checks every output path of one ID and parses each produced text back.
 func c05Format(w *rt.W, id uu.ID, slow bool) {
+	foreignActivity(int(id.Lower%1009), "uu")
 	want := ref.UUIDText(id.Higher, id.Lower)
 	wantURN := "urn:uuid:" + want
 	fail := func(key, path, got, wantS string) {
